@@ -9,17 +9,30 @@ TARGETS = {
 }
 
 
+def _run(prop, name, tier, ops, dev, cb, nfd, share):
+    return dict(name=name, target="h_events", tiers=[tier], share=share,
+                args=["--prop", prop, "--ops", str(ops), "--dev", str(dev), "--cb", str(cb), "--nfd", str(nfd)])
+
+
 def events_check(prop):
+    # The cost is dominated by non-trivial callback actions, so each tier is a union of explorations that push one
+    # bound at a time (every run is exhaustive within its own bounds; coverage = union of the runs).
     return dict(
         level="model_checking",
-        runs=[dict(name="events", target="h_events", args=["--prop", prop],
-                   quick=["--ops", "5", "--dev", "2", "--cb", "2", "--nfd", "2"],
-                   thorough=["--ops", "6", "--dev", "2", "--cb", "3", "--nfd", "3"])],
-        deadline=dict(quick=100, thorough=1500),
-        bounds=dict(quick="<=5 main-context operations, <=2 non-trivial callback actions, <=2 environment deviations, 2 descriptors",
-                    thorough="<=6 main-context operations, <=3 callback actions, <=2 deviations, 3 descriptors"),
+        runs=[
+            _run(prop, "ops5-dev2-cb1", "quick", 5, 2, 1, 2, 0.2),
+            _run(prop, "ops4-dev2-cb2", "quick", 4, 2, 2, 2, 0.3),
+            _run(prop, "ops5-dev1-cb2", "quick", 5, 1, 2, 2, 0.9),
+            _run(prop, "ops5-dev2-cb2", "thorough", 5, 2, 2, 2, 0.2),
+            _run(prop, "ops5-dev2-cb2-3fd", "thorough", 5, 2, 2, 3, 0.4),
+            _run(prop, "ops6-dev2-cb1", "thorough", 6, 2, 1, 2, 0.5),
+            _run(prop, "ops5-dev2-cb3", "thorough", 5, 2, 3, 2, 0.9),
+        ],
+        deadline=dict(quick=110, thorough=1700),
+        bounds=dict(quick="union of three exhaustive explorations with 2 descriptors: (<=5 main-context operations, <=2 deviations, <=1 callback action), (<=4, <=2, <=2), (<=5, <=1, <=2)",
+                    thorough="union of: (<=5 ops, <=2 deviations, <=2 callback actions) with 2 and with 3 descriptors, (<=6, <=2, <=1), (<=5, <=2, <=3)"),
         assumptions=["poll(2), clock_gettime(2) replaced by the harness (link-time interposition)",
-                     "<=3 immediates, <=3 descriptors x 2 directions, <=2 timers live at once"],
+                     "<=3 immediates, <=3 descriptors x 2 directions, <=2 timers live at once; timeouts {0, 1.5 ms, 3 ms, 1 h}; clock starts 2 ms before a second boundary"],
     )
 
 
